@@ -204,8 +204,7 @@ def evaluate(ctx, cases, exe, model):
             continue
         kb = [sg.KNOWN_CLASS_BLOCKS[bn] for bn in c["blocks"] if bn in sg.KNOWN_CLASS_BLOCKS]
         if kb:
-            # the class of K-C13-2: xsl:number level="any" with a from pattern
-            ctx.count("number-any-from-class")
+            ctx.count("known-class-block")
             if ra[0] == "ok" and rb[0] == "ok" and ra[1] != rb[1]:
                 known.append((kb[0], c))
             continue
@@ -251,7 +250,7 @@ def evaluate(ctx, cases, exe, model):
 
 
 # ---------------------------------------------------------------------------------------------
-# K-C13-2: the model of the level="any" walk (StripDefs.number_any) against the library, on the original
+# the model of the level="any" walk (StripDefs.number_any) against the library, on the original
 # document with declarations and on the physically stripped document without
 
 NUMBER_PROBE = ('<xsl:output method="text"/><xsl:template match="/"><xsl:for-each select="/*/descendant-or-self::node()">'
@@ -437,14 +436,15 @@ def run(ctx):
     cases = gen_cases(ctx, count)
     # the class of K-C13-1 (xml:space="preserve" above a stripped node) is generated apart, and only counted
     xs_cases = [gen_case(ctx, "x%d" % i, "xml-space", xmlspace=True, nblocks=2) for i in range(12 if not ctx.thorough else 200)]
-    # the class of K-C13-2 (xsl:number level="any" with from) likewise
+    # xsl:number level="any" with from patterns (K-C13-2, repaired in /repo): ordinary cases, and the model of the walk
+    # (StripDefs.number_any, configuration read from the source) is compared with both sides
     xs_cases += [gen_case(ctx, "y%d" % i, "number-any-from", blocks=["number-any-from"], size=ctx.rng.choice([6, 10, 16])) for i in range(40 if not ctx.thorough else 400)]
     ctx.cov["samples"] = [sg.sheet_model(c["main"]) + " on " + sg.serialize(c["doc"])[:120] for c in cases[200:206]]
     corr, orc, kn = evaluate(ctx, cases + xs_cases, exe, model)
     if model:
         nbad = number_correspondence(ctx, [c for c in xs_cases if c["cls"] == "number-any-from"], exe, model)
         if nbad:
-            ctx.broken.append("correspondence number walk (K-C13-2 model): %d cases differ, e.g. %s" % (len(nbad), nbad[0][:400]))
+            ctx.broken.append("correspondence number walk (StripDefs.number_any): %d cases differ, e.g. %s" % (len(nbad), nbad[0][:400]))
     if (corr or not proved or not model or ctx.broken) and not orc and not ctx.thorough:
         ctx.escalated = True
         more = gen_cases(ctx, 12000, prefix="e")
